@@ -884,7 +884,10 @@ def uniform_post(ctx, f):
                       % (what, astq.text(cmd_deps[0].test) if cmd_deps else "?"))
     # wrap copies the last nwrap samples of the block to the front
     wrap = [s for s in ast.walk(block) if isinstance(s, ast.Assign) and astq.eq_text(s.targets[0], "cbuffer[:nwrap]")][-1]
-    ctx.check(astq.in_texts(wrap.value, ("cbuffer[blocksize:blocksize+nwrap]", "cbuffer[blocksize:nwrap+blocksize]",)), R, f, wrap,
+    wv = wrap.value
+    if isinstance(wv, ast.Call) and isinstance(wv.func, ast.Attribute) and wv.func.attr == "copy" and not wv.args and not wv.keywords:
+        wv = wv.func.value  # an explicit copy of the (overlapping) source: the same samples
+    ctx.check(astq.in_texts(wv, ("cbuffer[blocksize:blocksize+nwrap]", "cbuffer[blocksize:nwrap+blocksize]",)), R, f, wrap,
               "the last nwrap samples become the next block's history", "history wrap copies %s" % astq.text(wrap.value))
     # interleave when the last channel is done
     il = [s for s in ast.walk(block) if isinstance(s, ast.If) and astq.eq_text(s.test, "chan==nchan-1")]
